@@ -154,9 +154,13 @@ impl Judge for SerdeJudge {
 
 // ---- (2) programs with every count of globals / labels / trace entries ---------------------------
 
-fn sized_program(globals: usize, cards: usize) -> Module {
+fn sized_program(globals: usize, cards: usize, lit_len: usize) -> Module {
     use ir::*;
     let mut main: Vec<C> = (0..globals).map(|i| sg(&format!("g{i}"), int(i as i64))).collect();
+    if lit_len > 0 {
+        // one long string literal: the data section crosses the size steps of the decoders
+        main.push(sv("lit", s(&"é".repeat(lit_len / 2))));
+    }
     for i in 0..cards {
         main.push(sv("x", bin(BinOp::Add, int(i as i64), int(1))));
     }
@@ -168,7 +172,11 @@ fn sized_program(globals: usize, cards: usize) -> Module {
 }
 
 fn check_sized(globals: usize, cards: usize) -> Option<(String, String)> {
-    let m = sized_program(globals, cards);
+    check_sized3(globals, cards, 0)
+}
+
+fn check_sized3(globals: usize, cards: usize, lit_len: usize) -> Option<(String, String)> {
+    let m = sized_program(globals, cards, lit_len);
     let p = compile(lower::module(&m), CompileOptions::new()).ok()?;
     let natives = refsem::default_natives();
     let want = image(&p);
@@ -543,7 +551,7 @@ impl Check for C11 {
     fn info(&self, tier: Tier) -> CheckInfo {
         let fams = families(tier);
         CheckInfo {
-            rule: format!("(1) every module of the families {:?}: JSON and YAML -> back -> identical source, compile -> byte-identical program image (bytecode, data, labels, variable ids/names, version, trace); the compiled program through JSON / CBOR / bincode -> field-wise equal image and the same run (result, globals, host log, error trace). (2) programs with every count of globals 0..{n} and of extra cards 0..{n} (labels and trace entries cross every capacity step of the decoders) through the 3 formats: image + run incl. a late error whose trace needs the decoded tables. (3) HandleTable<u32>, CaoHashMap<u32,u32> and CaoHashMap<String,u32> with every entry count 0..{n} x 3 formats: len, get for present and absent keys, iteration, and every follow-up history of depth 2 over insert / remove / entry on the decoded object against a BTreeMap. (4) {} owned values of depth <= 2 over nil, ints, finite reals, strings, tables (also as keys): insert_value -> OwnedValue -> 3 formats -> insert_value into a second VM -> deep-equal with order; the same for roots in which one runtime object is referenced several times (three values of one table, key and value of one entry, at two depths, through a shared middle table): the owned form is the tree expansion. 'states' = distinct program images / cases", fams.iter().map(|f| format!("{}={}", f.name(), f.len())).collect::<Vec<_>>(), owned_universe().len(), n = counts(tier)),
+            rule: format!("(1) every module of the families {:?}: JSON and YAML -> back -> identical source, compile -> byte-identical program image (bytecode, data, labels, variable ids/names, version, trace); the compiled program through JSON / CBOR / bincode -> field-wise equal image and the same run (result, globals, host log, error trace). (2) programs with every count of globals 0..{n} and of extra cards 0..{n} (labels and trace entries cross every capacity step of the decoders) through the 3 formats: image + run incl. a late error whose trace needs the decoded tables; plus large images (300 / 600 globals, 500 / 1500 cards, one string literal of 100, 4090, 4096, 4100, 5000, 70000 bytes: bytecode and data sections beyond 4 KiB and 64 KiB). (3) HandleTable<u32>, CaoHashMap<u32,u32> and CaoHashMap<String,u32> with every entry count 0..{n} x 3 formats: len, get for present and absent keys, iteration, and every follow-up history of depth 2 over insert / remove / entry on the decoded object against a BTreeMap. (4) {} owned values of depth <= 2 over nil, ints, finite reals, strings, tables (also as keys): insert_value -> OwnedValue -> 3 formats -> insert_value into a second VM -> deep-equal with order; the same for roots in which one runtime object is referenced several times (three values of one table, key and value of one entry, at two depths, through a shared middle table): the owned form is the tree expansion. 'states' = distinct program images / cases", fams.iter().map(|f| format!("{}={}", f.name(), f.len())).collect::<Vec<_>>(), owned_universe().len(), n = counts(tier)),
             bound: format!("counts 0..{}", counts(tier)),
             exhaustive: true,
             assumptions: vec!["non-finite reals are excluded for JSON / YAML sources (format limitation)".into()],
@@ -586,6 +594,12 @@ impl Check for C11 {
                     let r = check_sized(3, c);
                     report(out, r, json!({"sized": [3, c]}));
                 }
+                // a few large images in both tiers: bytecode and data well beyond 4 KiB / 64 KiB
+                for (g, c, l) in [(300usize, 0usize, 0usize), (600, 0, 0), (3, 500, 0), (3, 1500, 0), (0, 0, 100), (0, 0, 4090), (0, 0, 4096), (0, 0, 4100), (2, 2, 5000), (2, 2, 70_000), (300, 300, 5000)] {
+                    cvx_core::engine::trace_case(|| json!({"sized": [g, c, l]}));
+                    let r = check_sized3(g, c, l);
+                    report(out, r, json!({"sized": [g, c, l]}));
+                }
                 out.outcome("sized programs");
             }
             1 => {
@@ -626,7 +640,7 @@ impl Check for C11 {
     fn replay(&self, case: &J) -> Option<Violation> {
         let mk = |r: Option<(String, String)>| r.map(|(k, w)| Violation::new("C11", k, w, case.clone()));
         if let Some(a) = case["sized"].as_array() {
-            return mk(check_sized(a[0].as_u64()? as usize, a[1].as_u64()? as usize));
+            return mk(check_sized3(a[0].as_u64()? as usize, a[1].as_u64()? as usize, a.get(2).and_then(|x| x.as_u64()).unwrap_or(0) as usize));
         }
         if let Some(c) = case["handle_table"].as_u64() {
             return mk(check_handle_table(c as usize, case["fmt"].as_str()?));
